@@ -72,7 +72,10 @@ type span struct {
 func targetSpans(rd *Rendered) map[int][]span {
 	out := map[int][]span{}
 	add := func(s span) { out[s.Line] = append(out[s.Line], s) }
-	type akey struct{ line, posting int; role string }
+	type akey struct {
+		line, posting int
+		role          string
+	}
 	amt := map[akey]*span{}
 	for i, l := range rd.Lex {
 		if l.Kind == "tagname" {
@@ -375,9 +378,9 @@ func c08Counts(tier string) int64 {
 
 func init() {
 	Register(&Prop{
-		ID:   "C08",
-		Rule: "workspaces of 1-3 journals from G (non-ASCII and non-BMP text in descriptions, accounts, comments and commodities; status/code/date2/wide separators before the payee; adjacent entries without blank line) with and without workspace root; every file is opened; for EVERY cursor position of every line (UTF-16, code-point boundaries, end of line included): hover, prepareRename, references, rename, definition, completion, inlineCompletion; per document: published diagnostics, documentSymbol, foldingRange, documentLink; workspace/symbol. Generic validator against the text of the document the URI names (line/character bounds in UTF-16, start<=end, no split surrogate pair); target validator from the lexeme table (hover/prepareRename range = span of the lexeme under the cursor; reference/rename/workspace-symbol/link/undeclared-commodity ranges = span of an occurrence of that symbol on that line); structure validator (folds as inclusive line intervals, outline symbols as half-open ranges: disjoint or nested). The first cases force combinations of a non-ASCII feature with tags (incl. date tags, whose diagnostics carry ranges) in header/posting/transaction comments, costs, assertions, codes on a plain background. Non-trivial = workspace with >=1 non-ASCII line and >=10 cursor positions; distinct by workspace text hash.",
-		Notes: []string{"where a transaction's fold or outline range should end is not judged beyond the no-partial-overlap rule", "definition targets (whole directive / whole transaction) are judged by the generic validator only"},
+		ID:          "C08",
+		Rule:        "workspaces of 1-3 journals from G (non-ASCII and non-BMP text in descriptions, accounts, comments and commodities; status/code/date2/wide separators before the payee; adjacent entries without blank line) with and without workspace root; every file is opened; for EVERY cursor position of every line (UTF-16, code-point boundaries, end of line included): hover, prepareRename, references, rename, definition, completion, inlineCompletion; per document: published diagnostics, documentSymbol, foldingRange, documentLink; workspace/symbol. Generic validator against the text of the document the URI names (line/character bounds in UTF-16, start<=end, no split surrogate pair); target validator from the lexeme table (hover/prepareRename range = span of the lexeme under the cursor; reference/rename/workspace-symbol/link/undeclared-commodity ranges = span of an occurrence of that symbol on that line); structure validator (folds as inclusive line intervals, outline symbols as half-open ranges: disjoint or nested). The first cases force combinations of a non-ASCII feature with tags (incl. date tags, whose diagnostics carry ranges) in header/posting/transaction comments, costs, assertions, codes on a plain background. Non-trivial = workspace with >=1 non-ASCII line and >=10 cursor positions; distinct by workspace text hash.",
+		Notes:       []string{"where a transaction's fold or outline range should end is not judged beyond the no-partial-overlap rule", "definition targets (whole directive / whole transaction) are judged by the generic validator only"},
 		Cases:       func(tier string) int64 { return c08Counts(tier) + int64(len(c08Forced())*c08ForcedReps) },
 		MustObserve: []string{"workspaces", "cursor_positions", "ranges_checked", "forced_combination_cases"},
 		Setup:       func(c *Ctx) { c.State = &c08State{bad: c.Known.BadFeatureSets("C03", "C08")} },
